@@ -305,6 +305,7 @@ type vcfsRun struct {
 	hung    bool              // ... it was a hang
 	origLoc map[string]bool   // hash+size of blocks of the original manifest
 	marks   []int             // start / end offsets of recent writes and truncates (see posReads)
+	plan    []vcfsOp          // calls queued by the random generator (multi-call patterns)
 	mu      sync.Mutex
 }
 
@@ -546,6 +547,9 @@ func (r *vcfsRun) do(op vcfsOp) {
 			}
 		}
 		r.log(ev)
+	case "flushnow":
+		// an explicit MarshalManifest / Flush as part of a generated pattern (a stuttering step)
+		r.flushStep(op.D)
 	case "readdir":
 		var ents [][]interface{}
 		var err error
@@ -1089,6 +1093,47 @@ func (r *vcfsRun) randOp() vcfsOp {
 			return slots[rng.Intn(len(slots))]
 		}
 		return 1 + rng.Intn(nh)
+	}
+	if len(r.plan) > 0 {
+		op := r.plan[0]
+		r.plan = r.plan[1:]
+		return op
+	}
+	if rng.Intn(14) == 0 {
+		// Pattern "stale pointer of a long-lived handle": a reader handle seeks strictly beyond
+		// EOF and reads there (EOF); another handle then appends exactly at EOF, enough to
+		// carry the file past the reader's offset; the reader reads again WITHOUT seeking - it
+		// must get the bytes at its offset.  Optionally everything is made stored first (then
+		// the append cannot extend the last segment) and more appends / reads follow.
+		if _, files := r.existing(); len(files) > 0 {
+			p := files[rng.Intn(len(files))]
+			hr, hw := 1+rng.Intn(nh), 1+rng.Intn(nh)
+			for hw == hr {
+				hw = 1 + rng.Intn(nh)
+			}
+			delta := 1 + rng.Intn(2*bs)
+			if delta > 40 {
+				delta = 1 + rng.Intn(40)
+			}
+			plan := []vcfsOp{}
+			if rng.Intn(3) > 0 {
+				plan = append(plan, vcfsOp{Op: "flushnow", D: []string{"marshal", "sync", "flushall"}[rng.Intn(3)]})
+			}
+			plan = append(plan,
+				vcfsOp{Op: "open", H: hr, P: p, Acc: []string{"r", "rw"}[rng.Intn(2)]},
+				vcfsOp{Op: "seek", H: hr, Off: delta, Wh: 2},
+				vcfsOp{Op: "read", H: hr, N: 1 + rng.Intn(2*bs)},
+				vcfsOp{Op: "open", H: hw, P: p, Acc: []string{"w", "rw"}[rng.Intn(2)], Ap: true},
+				vcfsOp{Op: "write", H: hw, D: r.randData(delta + 1 + rng.Intn(2*bs+1))},
+				vcfsOp{Op: "read", H: hr, N: 1 + rng.Intn(2*bs)})
+			if rng.Intn(2) == 0 {
+				plan = append(plan,
+					vcfsOp{Op: "write", H: hw, D: r.randData(bs * (1 + rng.Intn(2)))},
+					vcfsOp{Op: "read", H: hr, N: 1 + rng.Intn(3*bs)})
+			}
+			r.plan = plan[1:]
+			return plan[0]
+		}
 	}
 	x := rng.Intn(100)
 	if len(slots) == 0 && x >= 15 && x < 75 {
